@@ -439,8 +439,11 @@ Proof.
       rewrite Hro. destruct (do_request GET _) as [e|[?|p]]; try (cbn; lia).
       destruct p; try (cbn; lia).
       destruct (fetch_all_fault c (S k) ft Hok ids 1 (mkWorld (w_sv w) (w_cl w)) [] ltac:(lia)) as [H1 H2].
-      unfold world_of, outcome_of, sent_of in *. intros Hk. split; [exact H1|].
-      destruct (H2 Hk) as (e & -> & Hd). exact Hd.
+      unfold world_of, outcome_of, sent_of in *.
+      destruct (fetch_all c (Some (S k, ft)) 1 (mkWorld (w_sv w) (w_cl w)) ids []) as [[w' out] n'].
+      cbn [fst snd] in *. intros Hk.
+      assert (Hk' : S k < n') by (destruct out; exact Hk).
+      destruct (H2 Hk') as (e & -> & Hd). cbn [fst snd w_sv]. split; [exact H1|exact Hd].
   - (* ext put *) cbn. lia.
   - (* ext del *) cbn. lia.
 Qed.
@@ -764,4 +767,317 @@ Proof.
     + intros z ce Hz Hnin. apply Hkeep'.
       * apply Hkeep1; [exact Hz|]. intros Eq. apply Hnin. now left.
       * intros Hin. apply Hnin. now right.
+Qed.
+
+(* ---- commit / update / discard / membership / length / iteration *)
+Lemma upd_cell_id h : forall x, upd_cell h x (fun ce => ce) = h.
+Proof. induction h as [|a r IH]; intros [|x]; cbn; try reflexivity. now rewrite IH. Qed.
+Lemma live_sget sv i r v : live sv i = Some (r, v) -> sget sv i = Some (mkDoc r (Some v)).
+Proof. unfold live. destruct (sget sv i) as [[r' [v'|]]|]; try discriminate. now intros [= -> ->]. Qed.
+Lemma client_eta cl : mkClient (heap cl) (revs cl) (cache cl) = cl.
+Proof. now destruct cl. Qed.
+
+Lemma commit_ok c w x ce : Inv c w -> cellw w x = Some ce ->
+  let r := step c None w (Commit x) in
+  Inv c (world_of r) /\
+  (if String.eqb (c_src ce) "" then outcome_of r = ODone /\ world_of r = w
+   else match absmap w (c_id ce) with
+        | Some _ => outcome_of r = ODone /\ absmap (world_of r) (c_id ce) = Some (c_val ce) /\
+                    forall j, j <> c_id ce -> absmap (world_of r) j = absmap w j
+        | None => outcome_of r = OErr XConflict /\ world_of r = w
+        end).
+Proof.
+  intros HI Hx. destruct (inv_cells c w HI x ce Hx) as [Hl Hs]. cbn zeta.
+  destruct (String.eqb_spec (c_src ce) "") as [Es|Hne].
+  - cbn [step]. unfold op_commit. unfold cellw in Hx. rewrite Hx, Es. cbn. auto.
+  - destruct Hs as [Hs|Hs]; [contradiction|].
+    pose proof (inv_revs c w HI (c_id ce) Hl) as Hr. unfold absmap.
+    destruct (live (w_sv w) (c_id ce)) as [[r v0]|] eqn:Ev; cbn [option_map fst snd] in *.
+    + rewrite (commit_fresh c w x ce (c_id ce) r v0 Hx Hs Hl Hr (live_sget _ _ _ _ Ev)).
+      cbn [world_of outcome_of fst snd]. split; [|split; [reflexivity|split]].
+      * rewrite <- (upd_cell_id (heap (w_cl w)) x). apply Inv_write; auto.
+      * cbn. now rewrite live_aset_same.
+      * intros j Hj. cbn. rewrite live_aset_other by congruence. reflexivity.
+    + cbn [step]. unfold op_commit. unfold cellw in Hx. rewrite Hx, Hs, source_nonempty, source_roundtrip, Hr. cbn. auto.
+Qed.
+
+Lemma update_ok c w x ce : Inv c w -> cellw w x = Some ce ->
+  let r := step c None w (Update x) in
+  Inv c (world_of r) /\ (forall j, absmap (world_of r) j = absmap w j) /\
+  (if String.eqb (c_src ce) "" then outcome_of r = ODone /\ world_of r = w
+   else match absmap w (c_id ce) with
+        | Some v => outcome_of r = ODone /\
+                    cellw (world_of r) x = Some (mkCell (c_id ce) v (c_src ce))
+        | None => outcome_of r = OErr XKey /\ world_of r = w
+        end).
+Proof.
+  intros HI Hx. destruct (inv_cells c w HI x ce Hx) as [Hl Hs]. cbn zeta.
+  destruct (String.eqb_spec (c_src ce) "") as [Es|Hne].
+  - cbn [step]. unfold op_update. unfold cellw in Hx. rewrite Hx, Es. cbn. auto.
+  - destruct Hs as [Hs|Hs]; [contradiction|]. cbn [step]. unfold op_update, send. pose proof Hx as Hx'. unfold cellw in Hx'.
+    rewrite Hx', Hs, source_nonempty, source_roundtrip.
+    rewrite (serve_read c (w_sv w) (c_id ce) GET None None Hl (or_introl eq_refl)). unfold absmap.
+    destruct (live (w_sv w) (c_id ce)) as [[r v]|] eqn:Ev; cbn [option_map snd do_request].
+    + cbn. split; [|split; [reflexivity|split; [reflexivity|]]].
+      * constructor; cbn [w_sv w_cl revs cache].
+        -- apply (inv_keys c w HI).
+        -- apply (inv_nodup c w HI).
+        -- apply Inv_cells_upd; [apply (inv_cells c w HI)|]. intros ce0 H0. rewrite Hx in H0. injection H0 as <-.
+           cbn. split; [reflexivity|]. now right.
+        -- intros j Hj. change r with (fst (r, v)). apply revs_aset; [exact Hj|exact Ev|]. intros _. now apply (inv_revs c w HI).
+        -- apply Inv_cache_upd; [|apply (inv_cache c w HI)]. intros ce0 H0. rewrite Hx in H0. now injection H0 as <-.
+      * rewrite (cellw_upd_same w x _ ce); [|exact Hx]. now rewrite <- Hs.
+    + cbn. rewrite world_eta. auto.
+Qed.
+
+Lemma Inv_delete c w x ce r :
+  Inv c w -> cellw w x = Some ce ->
+  Inv c (mkWorld (aset (c_id ce) (mkDoc r None) (w_sv w))
+                 (mkClient (upd_cell (heap (w_cl w)) x (set_src ""))
+                           (sremove (doc_url c (c_id ce)) (revs (w_cl w))) (sremove (c_id ce) (cache (w_cl w))))).
+Proof.
+  intros HI Hx. destruct (inv_cells c w HI x ce Hx) as [Hl _]. constructor; cbn [w_sv w_cl revs cache].
+  - intros i d H. apply sget_aset_keys in H. destruct H as [->|H]; [exact Hl|now apply (inv_keys c w HI i d)].
+  - apply aset_keys_nodup. apply (inv_nodup c w HI).
+  - apply Inv_cells_upd; [apply (inv_cells c w HI)|]. intros ce0 _. cbn. split; [reflexivity|now left].
+  - intros j Hj. destruct (String.eqb_spec (c_id ce) j) as [<-|Hne].
+    + now rewrite sassoc_remove_same, live_aset_deleted.
+    + rewrite sassoc_remove_other, live_aset_other by (try exact Hne; intros E; apply Hne; now apply doc_url_inj in E).
+      now apply (inv_revs c w HI).
+  - apply Inv_cache_upd; [reflexivity|]. intros i y H. destruct (String.eqb_spec (c_id ce) i) as [<-|Hne].
+    + now rewrite sassoc_remove_same in H.
+    + rewrite sassoc_remove_other in H by exact Hne. now apply (inv_cache c w HI).
+Qed.
+
+Lemma discard_ok c w x ce safe : Inv c w -> cellw w x = Some ce ->
+  let r := step c None w (Discard x safe) in
+  Inv c (world_of r) /\
+  match absmap w (c_id ce) with
+  | Some _ => outcome_of r = ODone /\ absmap (world_of r) (c_id ce) = None /\
+              (forall j, j <> c_id ce -> absmap (world_of r) j = absmap w j) /\
+              cellw (world_of r) x = Some (set_src "" ce)
+  | None => outcome_of r = OErr (if safe then XConflict else XKey) /\ world_of r = w
+  end.
+Proof.
+  intros HI Hx. destruct (inv_cells c w HI x ce Hx) as [Hl _]. cbn zeta.
+  pose proof (inv_revs c w HI (c_id ce) Hl) as Hr. cbn [step]. unfold op_discard. pose proof Hx as Hx'. unfold cellw in Hx'.
+  rewrite Hx', Hr. unfold absmap.
+  assert (Hdone : forall n w0 r v, w_sv w0 = w_sv w -> w_cl w0 = w_cl w -> live (w_sv w) (c_id ce) = Some (r, v) ->
+     let res := delete_phase c None n w0 x (c_id ce) (doc_url c (c_id ce)) r in
+     Inv c (world_of res) /\ outcome_of res = ODone /\ absmap (world_of res) (c_id ce) = None /\
+     (forall j, j <> c_id ce -> absmap (world_of res) j = absmap w j) /\
+     cellw (world_of res) x = Some (set_src "" ce)).
+  { intros n w0 r v Hsv Hcl Ev. cbn zeta. unfold delete_phase, send. rewrite Hsv, Hcl, (serve_delete c _ _ (Some r) Hl), Ev.
+    cbn [opt_rev_eqb]. rewrite Nat.eqb_refl. cbn. split; [now apply Inv_delete|]. split; [reflexivity|]. split; [|split].
+    - unfold absmap. cbn. now rewrite live_aset_deleted.
+    - intros j Hj. unfold absmap. cbn. rewrite live_aset_other by congruence. reflexivity.
+    - now apply cellw_upd_same. }
+  destruct (live (w_sv w) (c_id ce)) as [[r v]|] eqn:Ev; cbn [option_map fst snd]; destruct safe.
+  - apply (Hdone 0 w r v); auto.
+  - unfold send. rewrite (serve_read c (w_sv w) (c_id ce) HEAD None None Hl (or_intror eq_refl)), Ev. cbn [do_request fst snd].
+    cbn [is_2xx rs_status]. cbn. apply (Hdone 1 (mkWorld (w_sv w) (w_cl w)) r v); auto.
+  - cbn. auto.
+  - unfold send. rewrite (serve_read c (w_sv w) (c_id ce) HEAD None None Hl (or_intror eq_refl)), Ev. cbn.
+    rewrite world_eta. auto.
+Qed.
+
+Lemma contains_ok c w i : legal i = true ->
+  step c None w (ContainsId i) = (w, OBool (match absmap w i with Some _ => true | None => false end), 1).
+Proof.
+  intros Hl. cbn [step]. unfold op_contains, send.
+  rewrite (serve_read c (w_sv w) i HEAD None None Hl (or_intror eq_refl)). unfold absmap.
+  destruct (live (w_sv w) i) as [[r v]|]; cbn; now rewrite world_eta.
+Qed.
+
+Lemma len_ok c w : step c None w Len = (w, ONat (List.length (live_ids (w_sv w))), 1).
+Proof.
+  cbn [step]. unfold op_len, send, serve. cbn [rq_url rq_meth]. rewrite route_db. cbn. now rewrite world_eta.
+Qed.
+
+Lemma iter_ok c w : Inv c w ->
+  let r := step c None w Iter in
+  exists l, outcome_of r = OCells l /\ Inv c (world_of r) /\ (forall j, absmap (world_of r) j = absmap w j) /\
+    Forall2 (fun y i => exists ce, cellw (world_of r) y = Some ce /\ c_id ce = i /\ absmap w i = Some (c_val ce))
+            l (isort (live_ids (w_sv w))).
+Proof.
+  intros HI. cbn zeta. cbn [step]. unfold op_iter, send, serve. cbn [rq_url rq_meth]. rewrite route_all_docs.
+  cbn [do_request fst snd]. cbn. rewrite world_eta.
+  pose proof (inv_nodup c w HI) as Hnd.
+  destruct (fetch_all_spec c (isort (live_ids (w_sv w))) 1 w [] HI) as (w' & l & E & Hsv & HI' & Hall & _).
+  - eapply Permutation_NoDup; [symmetry; apply isort_perm|]. now apply live_ids_nodup.
+  - intros i Hin. apply (Permutation_in _ (isort_perm _)) in Hin. apply (live_ids_spec _ _ Hnd) in Hin.
+    split; [|exact Hin]. unfold live in Hin. destruct (sget (w_sv w) i) as [d|] eqn:Ed; [|congruence].
+    now apply (inv_keys c w HI i d).
+  - rewrite E. cbn. exists l. split; [reflexivity|]. split; [exact HI'|]. split; [|exact Hall].
+    intros j. unfold absmap. now rewrite Hsv.
+Qed.
+
+(* ---- histories *)
+Definition op_wf (w : world) (o : op) : Prop :=
+  match o with
+  | Add x | Modify x _ | Commit x | Update x | Discard x _ | ContainsObj x => cellw w x <> None
+  | GetId i | ContainsId i => legal i = true
+  | Len | Iter => True
+  | ExtPut _ _ | ExtDel _ => False        (* no second actor *)
+  end.
+Fixpoint wf_run (c : cfg) (w : world) (h : list op) : Prop :=
+  match h with
+  | [] => True
+  | o :: r => op_wf w o /\ wf_run c (world_of (step c None w o)) r
+  end.
+Definition run_ops (c : cfg) (w : world) (h : list op) : world :=
+  fold_left (fun w o => world_of (step c None w o)) h w.
+
+(* what a map would answer, and how it changes: m = absmap before, m' = absmap after *)
+Definition step_spec (c : cfg) (w : world) (o : op) (r : res) : Prop :=
+  let m := absmap w in
+  let m' := absmap (world_of r) in
+  let same := forall j, m' j = m j in
+  let only i := forall j, j <> i -> m' j = m j in
+  match o with
+  | Add x => forall ce, cellw w x = Some ce ->
+      match m (c_id ce) with
+      | Some _ => outcome_of r = OErr XKey /\ same
+      | None => outcome_of r = ODone /\ m' (c_id ce) = Some (c_val ce) /\ only (c_id ce)
+      end
+  | GetId i => same /\
+      match m i with
+      | None => outcome_of r = OErr XKey
+      | Some v => exists y ce, outcome_of r = OCell y /\ cellw (world_of r) y = Some ce /\ c_id ce = i /\ c_val ce = v
+      end
+  | Modify x v => same /\ outcome_of r = ODone
+  | Commit x => forall ce, cellw w x = Some ce ->
+      if String.eqb (c_src ce) "" then outcome_of r = ODone /\ same
+      else match m (c_id ce) with
+           | Some _ => outcome_of r = ODone /\ m' (c_id ce) = Some (c_val ce) /\ only (c_id ce)
+           | None => outcome_of r = OErr XConflict /\ same
+           end
+  | Update x => same /\ forall ce, cellw w x = Some ce ->
+      if String.eqb (c_src ce) "" then outcome_of r = ODone
+      else match m (c_id ce) with
+           | Some v => outcome_of r = ODone /\ cellw (world_of r) x = Some (mkCell (c_id ce) v (c_src ce))
+           | None => outcome_of r = OErr XKey
+           end
+  | Discard x safe => forall ce, cellw w x = Some ce ->
+      match m (c_id ce) with
+      | Some _ => outcome_of r = ODone /\ m' (c_id ce) = None /\ only (c_id ce)
+      | None => outcome_of r = OErr (if safe then XConflict else XKey) /\ same
+      end
+  | ContainsId i => same /\ outcome_of r = OBool (match m i with Some _ => true | None => false end)
+  | ContainsObj x => same /\ forall ce, cellw w x = Some ce ->
+      outcome_of r = OBool (match m (c_id ce) with Some _ => true | None => false end)
+  | Len => same /\ exists keys, outcome_of r = ONat (List.length keys) /\ NoDup keys /\
+                                forall i, In i keys <-> m i <> None
+  | Iter => same /\ exists l keys, outcome_of r = OCells l /\ NoDup keys /\ (forall i, In i keys <-> m i <> None) /\
+      Forall2 (fun y i => exists ce, cellw (world_of r) y = Some ce /\ c_id ce = i /\ m i = Some (c_val ce)) l keys
+  | ExtPut _ _ | ExtDel _ => True
+  end.
+
+Lemma absmap_live w i : absmap w i <> None <-> live (w_sv w) i <> None.
+Proof. unfold absmap. destruct (live (w_sv w) i); cbn; split; congruence. Qed.
+
+Lemma step_ok c w o : Inv c w -> op_wf w o ->
+  Inv c (world_of (step c None w o)) /\ step_spec c w o (step c None w o).
+Proof.
+  intros HI Hwf. destruct o; cbn [op_wf] in Hwf; unfold step_spec; cbn zeta.
+  - destruct (cellw w x) as [ce|] eqn:Hx; [|congruence]. destruct (add_ok c w x ce HI Hx) as [HI' Hs].
+    split; [exact HI'|]. intros ce' [= <-]. destruct (absmap w (c_id ce)); [|exact Hs].
+    destruct Hs as [Ho Hw]. split; [exact Ho|]. now rewrite Hw.
+  - destruct (get_ok c w i HI Hwf) as (HI' & Hsame & Hs). auto.
+  - split; [|split; [intros j; reflexivity|reflexivity]]. cbn [step world_of fst].
+    constructor; cbn [w_sv w_cl revs cache]; try apply HI.
+    + apply Inv_cells_upd; [apply (inv_cells c w HI)|]. intros ce Hce. cbn. split; [reflexivity|].
+      now apply (inv_cells c w HI x ce).
+    + apply Inv_cache_upd; [reflexivity|apply (inv_cache c w HI)].
+  - destruct (cellw w x) as [ce|] eqn:Hx; [|congruence]. destruct (commit_ok c w x ce HI Hx) as [HI' Hs].
+    split; [exact HI'|]. intros ce' [= <-]. destruct (String.eqb (c_src ce) "").
+    + destruct Hs as [Ho Hw]. split; [exact Ho|]. now rewrite Hw.
+    + destruct (absmap w (c_id ce)); [exact Hs|]. destruct Hs as [Ho Hw]. split; [exact Ho|]. now rewrite Hw.
+  - destruct (cellw w x) as [ce|] eqn:Hx; [|congruence]. destruct (update_ok c w x ce HI Hx) as (HI' & Hsame & Hs).
+    split; [exact HI'|]. split; [exact Hsame|]. intros ce' [= <-]. destruct (String.eqb (c_src ce) ""); [tauto|].
+    destruct (absmap w (c_id ce)); tauto.
+  - destruct (cellw w x) as [ce|] eqn:Hx; [|congruence]. destruct (discard_ok c w x ce safe HI Hx) as [HI' Hs].
+    split; [exact HI'|]. intros ce' [= <-]. destruct (absmap w (c_id ce)); [tauto|].
+    destruct Hs as [Ho Hw]. split; [exact Ho|]. now rewrite Hw.
+  - rewrite (contains_ok c w i Hwf). cbn. auto.
+  - destruct (cellw w x) as [ce|] eqn:Hx; [|congruence]. destruct (inv_cells c w HI x ce Hx) as [Hl _].
+    cbn [step]. unfold cellw in Hx. rewrite Hx. fold (step c None w (ContainsId (c_id ce))).
+    rewrite (contains_ok c w (c_id ce) Hl). cbn. split; [exact HI|]. split; [auto|]. now intros ce' [= <-].
+  - rewrite (len_ok c w). cbn. split; [exact HI|]. split; [auto|]. exists (live_ids (w_sv w)).
+    split; [reflexivity|]. split; [apply live_ids_nodup, (inv_nodup c w HI)|].
+    intros i. rewrite absmap_live. apply live_ids_spec, (inv_nodup c w HI).
+  - destruct (iter_ok c w HI) as (l & Ho & HI' & Hsame & Hall). split; [exact HI'|]. split; [exact Hsame|].
+    exists l, (isort (live_ids (w_sv w))). split; [exact Ho|]. split; [|split; [|exact Hall]].
+    + eapply Permutation_NoDup; [symmetry; apply isort_perm|]. apply live_ids_nodup, (inv_nodup c w HI).
+    + intros i. rewrite absmap_live, <- (live_ids_spec _ _ (inv_nodup c w HI)).
+      split; apply Permutation_in; [apply isort_perm|symmetry; apply isort_perm].
+  - contradiction.
+  - contradiction.
+Qed.
+
+Lemma Inv_run c : forall h w, Inv c w -> wf_run c w h -> Inv c (run_ops c w h).
+Proof.
+  induction h as [|o r IH]; intros w HI Hwf; [exact HI|]. destruct Hwf as [Ho Hr]. cbn [run_ops fold_left].
+  apply IH; [now apply step_ok|exact Hr].
+Qed.
+Lemma wf_run_app c : forall h w o, wf_run c w (h ++ [o]) -> wf_run c w h /\ op_wf (run_ops c w h) o.
+Proof.
+  induction h as [|a r IH]; intros w o H; cbn in *; [tauto|]. destruct H as [Ha Hr].
+  destruct (IH _ _ Hr) as [H1 H2]. auto.
+Qed.
+
+Lemma history_refines c pool h o :
+  Forall (fun p => legal (fst p) = true) pool -> wf_run c (init pool) (h ++ [o]) ->
+  let w := run_ops c (init pool) h in
+  Inv c w /\ step_spec c w o (step c None w o).
+Proof.
+  intros Hp Hwf. destruct (wf_run_app c h (init pool) o Hwf) as [Hh Ho]. cbn zeta.
+  pose proof (Inv_run c h (init pool) (Inv_init c pool Hp) Hh) as HI.
+  split; [exact HI|]. now apply step_ok.
+Qed.
+
+(* ---------- composite statements used in props/C16.v ------------------------------------------------- *)
+
+(* a commit from an up-to-date replica is accepted, touches no other document, and is what every
+   later reader gets - whatever that reader's own client state (this process later on, or another one) *)
+Lemma fresh_commit_visible c w x ce i r v0 :
+  nth_error (heap (w_cl w)) x = Some ce -> c_src ce = generate_source c i -> legal i = true ->
+  sassoc (doc_url c i) (revs (w_cl w)) = Some r ->
+  sget (w_sv w) i = Some (mkDoc r (Some v0)) ->
+  let w1 := world_of (step c None w (Commit x)) in
+  outcome_of (step c None w (Commit x)) = ODone /\
+  (forall j, j <> i -> sget (w_sv w1) j = sget (w_sv w) j) /\
+  forall cl2, exists y cl' ce',
+    step c None (mkWorld (w_sv w1) cl2) (GetId i) = (mkWorld (w_sv w1) cl', OCell y, 1) /\
+    nth_error (heap cl') y = Some ce' /\ c_id ce' = i /\ c_val ce' = c_val ce.
+Proof.
+  intros Hx Hs Hl Hr Hd. cbn zeta. rewrite (commit_fresh c w x ce i r v0 Hx Hs Hl Hr Hd).
+  cbn [world_of outcome_of fst snd w_sv]. split; [reflexivity|]. split.
+  - intros j Hj. unfold sget. apply aset_other. congruence.
+  - intros cl2. destruct (get_live c (aset i (mkDoc (S r) (Some (c_val ce))) (w_sv w)) cl2 i (S r) (c_val ce) Hl
+                           (live_aset_same _ _ _ _)) as (y & cl' & ce' & E & H1 & H2 & H3 & _).
+    exists y, cl', ce'. auto.
+Qed.
+
+(* a successful safe delete removes the document for every later reader *)
+Lemma safe_delete_gone c w x ce i r v :
+  nth_error (heap (w_cl w)) x = Some ce -> c_id ce = i -> legal i = true ->
+  sassoc (doc_url c i) (revs (w_cl w)) = Some r -> live (w_sv w) i = Some (r, v) ->
+  let w1 := world_of (step c None w (Discard x true)) in
+  outcome_of (step c None w (Discard x true)) = ODone /\
+  (forall j, j <> i -> sget (w_sv w1) j = sget (w_sv w) j) /\
+  forall cl2, step c None (mkWorld (w_sv w1) cl2) (GetId i) = (mkWorld (w_sv w1) cl2, OErr XKey, 1).
+Proof.
+  intros Hx Hi Hl Hr Hv. pose proof (safe_delete_spec c w x ce i Hx Hi Hl) as H. rewrite Hr, Hv, Nat.eqb_refl in H.
+  destruct H as [Hw Ho]. cbn zeta. rewrite Hw, Ho. cbn [w_sv]. split; [reflexivity|]. split.
+  - intros j Hj. unfold sget. apply aset_other. congruence.
+  - intros cl2. apply get_missing; [exact Hl|apply live_aset_deleted].
+Qed.
+
+(* identifiers beginning with an underscore cannot be stored: CouchDB reserves such document ids *)
+Lemma reserved_id_rejected c v :
+  outcome_of (step c None (init [("_x", v)]) (Add 0)) = OErr (XServer 400).
+Proof.
+  unfold init. cbn [map fst snd]. cbn [step]. unfold op_add. cbn [w_cl heap nth_error c_id c_val w_sv].
+  unfold send, serve. cbn [rq_url rq_meth]. unfold url_target, doc_url. rewrite prefix_app, skip_app. reflexivity.
 Qed.
